@@ -336,6 +336,71 @@ func VerifH04t() {
 }
 
 // ---------------------------------------------------------------------------
+// H04r — what a connection costs does not grow with the number of packets it
+// sends before its start-up message (C04): K negotiation requests (SSLRequest
+// or GSSENCRequest, the solver's choice each time) on a server without
+// certificates, then a start-up packet and Terminate. However the server
+// treats the repetition — it may end the connection at the second request —
+// the depth of ITS call stack at a read does not grow from request to request
+// (a stack that grows by a frame or two per request is overflowed by a client
+// that sends a few million of them: the whole process dies).
+// ---------------------------------------------------------------------------
+func VerifH04r() {
+	K := vParam("K", 6)
+	var input []byte
+	for k := 0; k < K; k++ {
+		if nondetBool() {
+			input = vCat(input, vSSLRequest)
+		} else {
+			input = vCat(input, []byte{0, 0, 0, 8, 0x04, 0xd2, 0x16, 0x30}) // GSSENCRequest
+		}
+	}
+	input = vCat(input, vStartup(vKV([]byte("user"), []byte("u"))), vMsgBytes('X', nil))
+	w := &vWorld{parseMenu: 2, execMenu: 2}
+	srv, err := NewServer(w.parse, MessageBufferSize(64))
+	vAssert("newserver-ok", err == nil)
+	conn := vNewConn(input)
+	conn.in.chunk = 8 // one request per read
+	conn.trackDepth = true
+	srv.serve(context.Background(), conn) //nolint
+	vAssert("connection-closed", conn.closed >= 1)
+	vAssert("at-least-one-read", len(conn.depths) >= 1)
+	for i := range conn.depths {
+		vAssert("call-stack-does-not-grow-with-the-number-of-requests", conn.depths[i] <= conn.depths[0]+6)
+	}
+	if len(conn.depths) >= 2 {
+		vReach("several-reads")
+	}
+}
+
+// ---------------------------------------------------------------------------
+// H04p — a Parse message declares any number of pre-specified parameter types
+// (C04, C03): counts around the 16-bit and the times-four boundaries (16383,
+// 16384, 16385, 32767, 32768, 65535) with zero to two object ids actually
+// present. Whatever the count says, nothing panics: the statement is stored
+// (ParseComplete) or the message is rejected.
+// ---------------------------------------------------------------------------
+func VerifH04p() {
+	counts := []int{0, 1, 2, 3, 16383, 16384, 16385, 32767, 32768, 65535}
+	count := counts[vChoose(len(counts))]
+	present := vChoose(3)
+	body := vCat(vCStr(nil), vCStr([]byte("q")), vU16(count))
+	for k := 0; k < present; k++ {
+		body = append(body, vU32(nondetU32())...)
+	}
+	w := vNewWorld(vMsgBytes('P', body), 128)
+	w.parseMenu = -2
+	got, err := w.step()
+	vAssert("parse-complete-or-rejected", err != nil || got == "1" || got == "E")
+	if count >= 16384 {
+		vReach("count-beyond-the-times-four-boundary")
+	}
+	if err == nil && got == "1" {
+		vReach("parse-complete")
+	}
+}
+
+// ---------------------------------------------------------------------------
 // H04d — a fresh connection sending B arbitrary bytes (C04): startup, SSL and
 // cancel codes, truncated packets, absurd lengths. serve returns, nothing
 // panics, the connection is closed, and no callback sees fabricated data.
